@@ -47,7 +47,8 @@ class Result:
 
 class SubCheck:
     def __init__(self, name, strategy, evaluate, quick, thorough, enumerate_fn=None, workers=None,
-                 quick_s=75.0, thorough_s=900.0, shrink=True, minimize=None):
+                 quick_s=75.0, thorough_s=900.0, shrink=True, minimize=None, external=None):
+        self.external = external          # (tier, ctx, worker, nworkers) -> dict | None: an out-of-process campaign
         self.shrink = shrink              # False: no Hypothesis shrink phase (expensive cases); see minimize
         self.minimize = minimize          # (plan, fails: plan -> Violation|None) -> smaller failing plan
         self.name = name
@@ -185,6 +186,25 @@ def worker_main(prop, tier, w, nworkers, active, out_path, only=None):
             elif len(st["samples_tr"]) < 1:
                 st["samples_tr"].append(plan)
 
+        if sub.external is not None:
+            try:
+                r = sub.external(tier, ctx, w, nw)
+            except Exception:
+                r = {"error": traceback.format_exc()[-3000:]}
+            if r is None:
+                del res["subchecks"][sub.name]
+                continue
+            if "error" in r:
+                res["errors"].append({"subcheck": sub.name, "trace": r["error"]})
+            else:
+                st["evaluations"] = r["evaluations"]
+                nt_set.update(r["nontrivial"])
+                st["events"].update(r["events"])
+                for v in r["violations"]:
+                    res["violations"].append(v)
+            st["nontrivial"] = sorted(nt_set)
+            st["wall_s"] = time.time() - t0
+            continue
         if sub.enumerate_fn is not None:
             st["exhaustive"] = True
             try:
